@@ -16,7 +16,8 @@ fn check_c01(case: &Case) -> Verdict {
     };
     let mut v = Verdict::default();
     common_labels(case, &r, &mut v);
-    let expected = m.out_v();
+    // (a collect_into terminal may be a two-step history on one - initially empty - target, see `elem::second_step`)
+    let expected = collect_into_expected(case, &r.term, &m.out_v());
     match &r.out {
         Ok(Out::Seq(got)) => {
             if *got != expected {
@@ -128,6 +129,7 @@ pub fn c01() -> PropDef {
             )
         },
         long: Some(({ let mut c = GenCfg::long_sched(); c.terms = vec![TermClass::Collect]; c }, 400, 2500)),
+        growth: Some(({ let mut c = GenCfg::growth_sched(); c.terms = vec![TermClass::Collect]; c }, 400, 3000)),
     }
 }
 
@@ -283,6 +285,7 @@ pub fn c03() -> PropDef {
             )
         },
         long: Some(({ let mut c = GenCfg::long_sched(); c.terms = vec![TermClass::ReduceFamily]; c }, 400, 2500)),
+        growth: Some(({ let mut c = GenCfg::growth_sched(); c.terms = vec![TermClass::ReduceFamily]; c }, 300, 2500)),
     }
 }
 
@@ -373,6 +376,7 @@ pub fn c04() -> PropDef {
         assumptions: COMMON_ASSUMPTIONS,
         tiny: || tiny_cases(&[Term::Count], &[&[StageKind::FilterMap], &[StageKind::Filter]], &[&[1, 0, 2, 1], &[0, 0, 3]]),
         long: Some(({ let mut c = GenCfg::long_sched(); c.terms = vec![TermClass::Count, TermClass::ForEach]; c }, 300, 2000)),
+        growth: Some(({ let mut c = GenCfg::growth_sched(); c.terms = vec![TermClass::Count, TermClass::ForEach]; c }, 300, 2500)),
     }
 }
 
@@ -386,8 +390,7 @@ fn check_c06(case: &Case) -> Verdict {
     let mut v = Verdict::default();
     common_labels(case, &r, &mut v);
     let prefix = prefix_values(case, &r.term);
-    let mut expected = prefix.clone();
-    expected.extend(m.out_v());
+    let expected = collect_into_expected(case, &r.term, &m.out_v());
     let (target, spare) = match &r.term {
         Term::CollectInto { target, spare, .. } => (*target, *spare),
         _ => (Target::Vec, 0),
@@ -408,6 +411,11 @@ fn check_c06(case: &Case) -> Verdict {
         _ => "prefix>=output",
     });
     v.label(if spare == 0 { "no spare capacity" } else { "spare capacity" });
+    match second_step(spare) {
+        (0, _) => {}
+        (_, true) => v.label("two-step history: small collect first, then the computation into what it returned"),
+        (_, false) => v.label("two-step history: a second collect into the returned collection"),
+    }
     match &r.out {
         Ok(Out::Seq(got)) => {
             if *got != expected {
@@ -484,6 +492,7 @@ pub fn c06() -> PropDef {
         assumptions: COMMON_ASSUMPTIONS,
         tiny: no_tiny,
         long: None,
+        growth: Some(({ let mut c = GenCfg::growth_sched(); c.terms = vec![TermClass::CollectIntoPrefixed]; c }, 300, 2500)),
     }
 }
 
@@ -531,5 +540,6 @@ pub fn c07() -> PropDef {
         assumptions: COMMON_ASSUMPTIONS,
         tiny: no_tiny,
         long: Some(({ let mut c = GenCfg::long_sched(); c.terms = vec![TermClass::CollectX]; c }, 300, 2000)),
+        growth: Some(({ let mut c = GenCfg::growth_sched(); c.terms = vec![TermClass::CollectX]; c }, 1000, 6000)),
     }
 }
